@@ -16,8 +16,8 @@ import (
 // expressions, functions, exceptions) and of the class/closure generator in clsgen.go.
 func randomCases(e *lib.Env, off func(string) bool) []*pcase {
 	var out []*pcase
-	nGen := e.Pick(160, 1500)
-	nCls := e.Pick(120, 1500)
+	nGen := e.Pick(160, 2000)
+	nCls := e.Pick(120, 2000)
 	r := e.Rand("gen")
 	for i := 0; i < nGen; i++ {
 		exc := r.Intn(2) == 0
@@ -97,6 +97,7 @@ func syntacticFeatures(src string) []string {
 	add("dynamic-static", reFDynStatic)
 	add("multi-return", reFMultiReturn)
 	add("switch", reFSwitch)
+	add("closure-return-type", reFClosureRet)
 	return fs
 }
 
@@ -117,6 +118,7 @@ var (
 	reFDynStatic      = regexp.MustCompile(`\$\w+(?:->\w+)*::\$?[A-Za-z_]`)
 	reFMultiReturn    = regexp.MustCompile(`\)\s*:\s*\??[\w\\]+\s*,\s*\??[\w\\]+`)
 	reFSwitch         = regexp.MustCompile(`\bswitch\s*\(`)
+	reFClosureRet     = regexp.MustCompile(`\bfunction\s*\([^)]*\)\s*(?:use\s*\([^)]*\)\s*)?:\s*\??[\w\\|]+|\bfn\s*\([^)]*\)\s*:\s*\??[\w\\|]+`)
 	reClassHead       = regexp.MustCompile(`\bclass\s+\w+\s+extends\s+[\w\\]+[^{;]*\{`)
 )
 
